@@ -1089,7 +1089,18 @@ class Explorer:
         try:
             k = 0
             for name, v in self.vars.items():
-                if name == 'pi' or z3.is_bool(v) or not (z3.is_real(v) or z3.is_int(v)):
+                if name == 'pi':
+                    continue
+                if z3.is_bool(v):
+                    # booleans (masks, labels): a random value where the path condition allows it
+                    want = rng.random() < 0.6
+                    self.solver.push()
+                    self.solver.add(v if want else z3.Not(v))
+                    self.n_queries += 1
+                    if self.solver.check() != z3.sat:
+                        self.solver.pop()
+                    continue
+                if not (z3.is_real(v) or z3.is_int(v)):
                     continue
                 k += 1
                 for attempt in range(3):
